@@ -4,6 +4,7 @@ package main
 // producing obligations. See DESIGN.md section 3.
 
 import (
+	"go/ast"
 	"fmt"
 	"go/constant"
 	"go/token"
@@ -33,6 +34,7 @@ type Obligation struct {
 	ExpectSat bool // covers and canaries
 	Results     []Val
 	ResultTerms []string
+	Clause      ast.Expr // the contract clause behind a post obligation (for replay: is it a function of inputs and results only?)
 	Splits      []string // branch conditions on the way to this obligation (case-split fallback)
 	CoverGroup  string   // covers: at least one member of the group must be reachable
 }
